@@ -143,6 +143,29 @@ func (F *Flow) back(v ssa.Value, resIdx int) {
 		// value of an address: everything stored into the cell
 		F.backCell(x, nil, x.Parent())
 	case *ssa.FieldAddr, *ssa.IndexAddr:
+		// let the visitor see the intermediate addresses of a chain such as &x.A.B[i]
+		for inner := v; ; {
+			var next ssa.Value
+			switch y := inner.(type) {
+			case *ssa.FieldAddr:
+				next = y.X
+			case *ssa.IndexAddr:
+				next = y.X
+			}
+			if next == nil {
+				break
+			}
+			switch next.(type) {
+			case *ssa.FieldAddr, *ssa.IndexAddr:
+				if F.Visit != nil && !F.seen[next] {
+					F.seen[next] = true
+					if !F.Visit(next) {
+						return
+					}
+				}
+			}
+			inner = next
+		}
 		root, path := addrPath(v)
 		if a, ok := root.(*ssa.Alloc); ok {
 			F.backCell(a, path, a.Parent())
